@@ -839,8 +839,7 @@ pub fn run_c02(o: &Opts) -> Report {
         // (idealize_env) discards every character of the format's `is_for_parse` class = char::is_whitespace, whatever the
         // rest of the input looks like.  So the same token sequence written with any other White_Space character where the
         // formatter wrote a blank (or with such characters in front, behind, doubled) is, for the parser, the formatter's
-        // output: it must come back as x.  (This composes C02 with the whitespace clause of C09; it is evaluated here
-        // because it is the parse of C02 -- same entry point, same values -- that is exercised.)  Every one of the 25
+        // output.  (This composes C02 with the whitespace clause of C09: model-vs-code correspondence only, see below.)  Every one of the 25
         // White_Space characters is used, on texts that are otherwise pure ASCII and, separately, on texts that contain
         // a non-ASCII character; the model parses every variant as well.
         for class in 0..2 {
@@ -851,19 +850,12 @@ pub fn run_c02(o: &Opts) -> Report {
                     let r = cx.parse_case(&fm, &w);
                     cx.rep.hist.add(format!("{}:separators:{}:mode{}:{}", fm.name, if class == 0 { "ascii-text" } else { "non-ascii-text" }, mode, pr_tag(&r)));
                     cx.rep.hist.add(format!("separators:U+{:04X}:{}", c as u32, if class == 0 { "ascii-text" } else { "non-ascii-text" }));
+                    // C02 quantifies over parse(format(x)) and the formatter never writes these characters: a difference here
+                    // is a matter of C09 (whose own stream evaluates it on the real code), not a failure of C02.  For C02 the
+                    // variant is a correspondence case only (cx.parse_case above): if the model no longer mirrors the
+                    // parser on it, C02 is no longer SHOWN to hold and says so without claiming a failing input.
                     if !matches!(&r, Ok(Some(w2)) if w2 == x) {
-                        cx.fail(
-                            "separators",
-                            "parse(format(x)) with the formatter's blanks written as another White_Space character differs from x",
-                            format!("[{}] {:?} (U+{:04X}, {}; the formatter wrote {:?})", fm.name, w, c as u32, RESEPARATE_MODES[mode], s),
-                            format!("{:?}", x),
-                            match &r {
-                                Ok(Some(w2)) => format!("{:?}", w2),
-                                Ok(None) => "Err".into(),
-                                Err(()) => "PANIC".into(),
-                            },
-                            None,
-                        );
+                        cx.rep.hist.add("separators:differs-from-x (C09's business; correspondence case only)");
                     }
                 }
             }
